@@ -223,7 +223,10 @@ class Interp:
         mod = self.cur_mod[-1]
         env = self.model.env(mod.name)
         if name in env:
-            return self.lift(env[name], name), None
+            v = env[name]
+            if isinstance(v, e1.Opaque) and v.kind == "instance" and isinstance(v.info[0], e1.ClassRef):
+                return self._global_object(st, mod, name, v), None
+            return self.lift(v, name), None
         if name in ("int", "str", "float", "bool", "len", "type", "isinstance", "getattr",
                     "hasattr", "min", "max", "abs", "enumerate", "range", "tuple", "list",
                     "dict", "set", "sorted", "zip", "all", "any", "sum", "repr", "print",
@@ -233,6 +236,26 @@ class Interp:
                     "frozenset", "hash", "id", "callable", "format", "ord", "chr"):
             return ExtV(name), None
         return None, None
+
+    def _global_object(self, st, mod, name, op):
+        """A module-level instance of a package class: one shared object per state
+        (it existed before the call, so stores into it are effects)."""
+        key = ("global", mod.name, name)
+        for o in st.heap.values():
+            if o.sym == key:
+                return RefV(o.oid)
+        cref, args, kwargs, node = op.info
+        cv = ClassV(cref.mod, cref.node)
+        largs = [self.lift(a) for a in args]
+        lkw = {k: self.lift(v) for k, v in kwargs.items()}
+        outs = self.instantiate(st, cv, largs, lkw, node)
+        for s2, ref in outs:
+            if isinstance(ref, RefV) and s2 is st:
+                o = st.heap[ref.oid]
+                o.fresh = False
+                o.sym = key
+                return ref
+        return TopV("module-level instance " + name)
 
     def set_var(self, st, name, val):
         # assignment binds in the current frame unless declared nonlocal (not modelled)
@@ -478,6 +501,8 @@ class Interp:
                 return [(st, IntV(-INF, INF, ("tdfield", base.sym, attr)))]
             return [(st, ExtV("td." + attr, bound=base))]
         if isinstance(base, ExtV):
+            if attr == "mdays" and base.name.endswith("calendar"):
+                return [(st, TupleV([IntV(x, x) for x in (0, 31, 28, 31, 30, 31, 30, 31, 31, 30, 31, 30, 31)], True))]
             return [(st, ExtV(base.name + "." + attr, bound=base.bound))]
         if isinstance(base, (TupleV, PyV, DictV)):
             return [(st, ExtV("coll." + attr, bound=base))]
@@ -492,6 +517,8 @@ class Interp:
     def _rd_attr(self, rd, attr):
         if attr in rd.abs:
             return rd.abs[attr]
+        if getattr(rd, "is_diff", False) and attr in rd.rel:
+            return rd.rel[attr]
         if attr in REL_KEYS:
             small = all(k in ("years", "months", "weeks", "days") for k in rd.rel)
             if attr == "days":
@@ -587,8 +614,12 @@ class Interp:
                 n_ = len(base.items)
                 res = []
                 if key.lo >= -n_ and key.hi < n_:
-                    return [(st, join_vals([base.items[i] for i in
-                                            range(int(key.lo), int(key.hi) + 1)]))]
+                    sel = [base.items[i] for i in range(int(key.lo), int(key.hi) + 1)]
+                    j = join_vals(sel)
+                    if isinstance(j, IntV) and key.lo >= 0 and all(isinstance(x, IntV) for x in base.items):
+                        # keep the relation between index and element
+                        j = IntV(j.lo, j.hi, ("select", tuple(x.sym for x in base.items), key.sym))
+                    return [(st, j)]
                 return [(st, self.raised("index", "IndexError", node, "index may be out of range"))]
             return [(st, self.undecided(st, node, "tuple index"))]
         if isinstance(base, PyV) and isinstance(base.value, dict):
@@ -661,6 +692,9 @@ class Interp:
             return [(st, StrV(None, sym=("index", base.sym)))]
         if isinstance(base, TopV):
             return [(st, TopV("subscript of top"))]
+        if isinstance(base, ExtV) and base.name.split(".")[-1] == "mdays":
+            t = TupleV([IntV(x, x) for x in (0, 31, 28, 31, 30, 31, 30, 31, 31, 30, 31, 30, 31)], True)
+            return self.subscript(st, t, key, node)
         return [(st, self.undecided(st, node, "subscript of " + base.kind))]
 
     def _refine_expr(self, st, node, val):
